@@ -585,6 +585,84 @@ def _rule_letters(rule):
     return ''.join(sorted(s))
 
 
+class _FindFirstSite(Contract):
+    """the first position at which a node sequence is cut: the smaller of the first cleavage site the site iterator yields for the SAME rule,
+    exception and exception sites that were asked for (none -> not considered) and the first stop symbol (a stop at position 0 cuts behind
+    it, unless it is the whole sequence); -1 when there is neither. (The peptide graph cleaves nodes with these helpers: with another
+    exception than the one asked for, the sites would depend on how a sequence is partitioned into nodes.)"""
+    props = ('C10',)
+    with_range = False
+    path = AAR
+
+    @property
+    def qualname(self):
+        return 'AminoAcidSeqRecord.find_first_cleave_or_stop_site' + ('_with_range' if self.with_range else '')
+
+    def setup(self, I):
+        e = I.e
+        st = types.SimpleNamespace(calls=[])
+        st.has_site, st.has_stop = e.bool('iterator_yields_a_site'), e.bool('sequence_has_a_stop')
+        st.site, st.stop, st.L = e.int('first_site'), e.int('first_stop'), e.int('seq_len')
+        e.assume(z3.And(st.L >= 1, st.site >= 1, st.site < st.L, st.stop >= 0, st.stop < st.L))
+        st.range = SymObj('SiteRange10')
+        st.rule, st.exc, st.esites = SymObj('Rule10f'), SymObj('Exception10f'), SymObj('ExceptionSites10f')
+        st.rec = SymObj('AminoAcidSeqRecord', seq=SymObj('Seq10f'))
+        st.args = [st.rec]
+        st.kwargs = dict(rule=st.rule, exception=st.exc, exception_sites=st.esites)
+        self._cur = st
+        return st
+
+    @property
+    def models(self):
+        c = self
+
+        def inst(reg):
+            reg.protocol_('Seq10f', '__len__', lambda I, o: c._cur.L)
+
+            class It:
+                def __init__(s_, what):
+                    s_.what = what
+
+                def sym_next(s_, I, rest):
+                    st = c._cur
+                    has = st.has_site if s_.what == 'site' else st.has_stop
+                    if I.e.branch(has, f'{s_.what} exists'):
+                        if s_.what == 'stop':
+                            return st.stop
+                        return (st.site, st.range) if c.with_range else st.site
+                    if rest:
+                        return rest[0]
+                    I.raise_('StopIteration')
+
+            def sites(I, o, a, k):
+                c._cur.calls.append((list(a), dict(k)))
+                return It('site')
+            reg.method_('AminoAcidSeqRecord', 'iter_enzymatic_cleave_sites_with_range' if c.with_range else 'iter_enzymatic_cleave_sites', sites)
+            reg.method_('AminoAcidSeqRecord', 'iter_stop_sites', lambda I, o, a, k: It('stop'))
+        return (inst,)
+
+    def post_return(self, I, st, ret):
+        e = I.e
+        ok = len(st.calls) == 1 and not st.calls[0][0] and st.calls[0][1].get('rule') is st.rule and st.calls[0][1].get('exception') is st.exc \
+            and st.calls[0][1].get('exception_sites') is st.esites
+        e.prove('C10/first-site/sites-asked-for-with-the-given-rule-exception-and-exception-sites', ok)
+        pos = ret[0] if self.with_range and isinstance(ret, tuple) else ret
+        stop_cut = z3.If(st.stop == 0, 1, st.stop)
+        stop_counts = z3.And(st.has_stop, z3.Not(z3.And(st.stop == 0, st.L == 1)))
+        early = z3.And(st.has_stop, st.stop == 0, st.L == 1)
+        want = z3.If(early, -1, z3.If(z3.And(st.has_site, stop_counts), z3.If(st.site <= stop_cut, st.site, stop_cut),
+                                     z3.If(st.has_site, st.site, z3.If(stop_counts, stop_cut, -1))))
+        e.prove('C10/first-site/the-smaller-of-the-first-cleavage-site-and-the-first-stop-or-minus-one', pos == want)
+        if self.with_range and isinstance(ret, tuple):
+            rng = ret[1]
+            e.prove('C10/first-site/range-of-the-site-returned-none-for-a-stop', z3.If(z3.And(z3.Not(early), st.has_site, z3.Or(z3.Not(stop_counts), st.site <= stop_cut)),
+                                                                                     z3.BoolVal(rng is st.range), z3.BoolVal(rng is None)))
+
+
+for _wr in (False, True):
+    register(type(f'FindFirstSite_{"range" if _wr else "plain"}', (_FindFirstSite,), dict(with_range=_wr)))
+
+
 class NativeDigest(NativeCheck):
     name = 'digest'
     props = ('C10',)
